@@ -2,7 +2,7 @@
 # tools/seed_verify.sh <ID> <n> : confirm a sub-agent's mutation n for property ID in its scratch worktree /tmp/seed_<ID>:
 #  baseline tests still pass with the patch, demo fails with it and passes without it.  On success the files are
 #  copied to /verif/seeded/<ID>-<n>/ .
-ID="$1"; N="$2"; WT=/tmp/seed_$ID; OUT=/tmp/seed_out/$ID
+ID="$1"; N="$2"; WT=/tmp/seed_$ID; OUT=${SEED_OUT:-/tmp/seed_out/$ID}
 git -C "$WT" checkout -q -- . || exit 3
 PYTHONPATH=$WT/src /venv/bin/python "$OUT/demo$N.py" >/dev/null 2>&1; D0=$?
 git -C "$WT" apply "$OUT/patch$N.diff" || { echo "patch does not apply"; exit 3; }
